@@ -10,7 +10,9 @@ EXPLANATION = (
     "reserved characters (pipe star colon backslash slash question-mark double-quote less greater hash) with images v a c d s q t l r h, both map the caret to the caret first, images and "
     "reserved characters are disjoint; the colour set is exactly '0'..'9' (char and u8 agree); in colours::strip the colour-removal "
     "test is not reachable from the taken escaped-caret branch within one loop iteration and comes after it; in escape the colour "
-    "pass-through is tested before escaping and ends its iteration. Not decided: unescape(escape(s)) = s for all strings, idempotence "
+    "pass-through is tested before escaping and ends its iteration; the guards of the early returns of escape / unescape (rows of the "
+    "path table that return before the loop) are evaluated on strings built around every character that needs the slow path and "
+    "hold for none of them. Not decided: unescape(escape(s)) = s for all strings, idempotence "
     "of strip, survival through the codepage path (value level)."
 )
 
